@@ -12,7 +12,7 @@ import sys
 
 pid = sys.argv[1]
 full = "--full" in sys.argv
-wt, work = f"/tmp/mut/{pid}", f"/tmp/mutwork/{pid}"
+wt, work = f"{os.environ.get('MUT_ROOT', '/tmp/mut')}/{pid}", f"{os.environ.get('MUTWORK_ROOT', '/tmp/mutwork')}/{pid}"
 env = dict(os.environ, NUMBA_CACHE_DIR=f"{work}/nbcache_confirm")
 res = {"property": pid}
 
